@@ -84,6 +84,7 @@ def hier_case(rng, levels=None, last_all_atom=True, share_p=0.0):
             continue
         levels = levels or rng.choice([1, 1, 2])
         layers = []      # list of (fragment-block string)
+        reuse_names = rng.random() < 0.3
         nshared = [0]
         names = {i: 'F%d' % i for i in range(nf)}
         cur = base
@@ -136,6 +137,13 @@ def hier_case(rng, levels=None, last_all_atom=True, share_p=0.0):
                 ok = False
                 break
             gnames = {j: 'G%d_%d' % (lv, j) for j in range(ng)}
+            if reuse_names:
+                # a group may carry the name of one of its own members (a polymer 'PEO' made of 'PEO' units)
+                for j in range(ng):
+                    if rng.random() < 0.6:
+                        gnames[j] = names[rng.choice([f for f in cur if grp[f] == j])]
+                if len(set(gnames.values())) < ng:
+                    gnames = {j: 'G%d_%d' % (lv, j) for j in range(ng)}
             block = []
             for j in range(ng):
                 members = [f for f in ext if grp[f] == j]
